@@ -39,7 +39,8 @@ RULE = ("[ordinary streams] (a) self-replacement P→P on planted structures (al
         "uio66-linker.cml on every run: everything except the term tuples must be unchanged, no tuple may be lost, every gained "
         "tuple must be the image of one of the pattern's own terms on the atoms of a match — then (and only then) the case is "
         "attributed to the finding. "
-        "MIRROR: in (b) a weakly chiral pattern (mirror misfit 0.5 Å, atol 0.1) next to its mirror image placed at coordinates "
+        "HISTORY: 30 % of the plain / fraction (b) cases first search the unit cell, then let the library replicate it, and run A→B→A "
+        "on the supercell object. MIRROR: in (b) a weakly chiral pattern (mirror misfit 0.5 Å, atol 0.1) next to its mirror image placed at coordinates "
         "above 0.7 × cell length.")
 
 MOF = os.path.join(core.REPO, "")
@@ -390,12 +391,35 @@ def site_case(rng, tier):
         for a in case["b"]["atoms"]:
             a["pos"] = [core.q(float(Fraction(v)) + off[i]) for i, v in enumerate(a["pos"])]
         case["variant"] = "b-elsewhere"
+    if variant in ("plain", "fraction") and base["info"].get("distorted", "none") == "none" and rng.random() < 0.3:
+        case["history"] = {"dims": rng.choice([[2, 1, 1], [1, 2, 1], [1, 1, 2], [2, 1, 2]])}
     if variant == "fraction" or (single and rng.random() < 0.3):
         case["fraction"] = rng.choice([0.5, 0.5, 0.34, 0.75, 0.6])   # A→B on a random part of the sites, B→A on all B sites
     return case
 
 
-def run_site(case):
+def derive_site(case):
+    """history variant: the structure is searched once, then REPLICATED by the library; A→B→A runs on the supercell OBJECT.
+    Returns (case on the derived structure, the derived object)"""
+    import mofun.mofun as mm
+    s0 = core.atoms_from_json(case["s"])
+    random.seed(case["seed"])
+    np.random.seed(case["seed"] % (2 ** 32))
+    with core.quiet():
+        mm.find_pattern_in_structure(s0, core.atoms_from_json(case["a"]), atol=case["atol"])
+        s1 = s0.replicate(repldims=tuple(case["history"]["dims"]))
+    sj1 = core.canon_atoms(s1)
+    return dict(case, s=sj1, history=None), s1
+
+
+def run_site(case, obj=None):
+    if obj is not None:
+        with C5.object_for(case["s"], obj):
+            o1 = findlib.run_replace(case["s"], case["a"], case["b"], atol=case["atol"], seed=case["seed"],
+                                     fraction=case.get("fraction", 1.0))
+        if "ok" not in o1:
+            return o1, None
+        return o1, findlib.run_replace(o1["ok"], case["b"], case["a"], atol=case["atol"], seed=case["seed"] + 1)
     if case.get("int_typed"):
         with C5.int_constructed([case["s"], case["a"], case["b"]]):
             o1 = findlib.run_replace(case["s"], case["a"], case["b"], atol=case["atol"], seed=case["seed"],
@@ -610,8 +634,16 @@ def do_self_all(ctx, case, ops):
 
 
 def do_site(ctx, case, ops):
-    o1, o2 = run_site(case)
+    orig = case
+    obj = None
+    if case.get("history"):
+        case, obj = derive_site(case)
+        ctx.count("site:history:search-then-replicate")
+    o1, o2 = run_site(case, obj)
     bad = oracle_site(case, o1, o2)
+    if bad and bad != "skip" and obj is not None:
+        bad = "after a search on the unit cell and replicate%s: %s" % (tuple(orig["history"]["dims"]), bad)
+        case = orig
     if bad == "skip":
         ctx.count("site:skipped (distorted / borderline copies no longer match on the way back)")
         bad = None
@@ -754,7 +786,10 @@ def replay(ctx, rec):
     if op == "c08-self-all":
         return oracle_self_all(case, run_self(case)) is None
     if op == "c08-site":
-        o1, o2 = run_site(case)
+        obj = None
+        if case.get("history"):
+            case, obj = derive_site(case)
+        o1, o2 = run_site(case, obj)
         return oracle_site(case, o1, o2) in (None, "skip")
     if op == "c08-gone":
         o1, f2 = run_gone(case)
